@@ -132,6 +132,11 @@ class Module:
             from .alpha import canonicalise, load_reference
 
             self.alpha_renamed = canonicalise(name, self.tree, _reference())
+        self.canon_stats: dict = {}
+        if os.environ.get("VERIF_NO_CANON") != "1":
+            from .canon import canonicalise as _canon
+
+            self.canon_stats = _canon(name, self.tree)
         self.parents: dict = {}
         self.qual: dict = {}
         self.funcs: dict = {}
